@@ -31,7 +31,7 @@ INL_DEVS = ["NoRestart", "DollarNewline", "CRLFUnit", "EOFNotDelim", "SeekOtherS
 EXPORT_ACTIONS = ["ADecide", "AName", "ANameRetry", "ACreate", "AHeader", "AInfo", "APalEntry", "ASeekLine", "AWriteLine",
                   "AWriteBlob", "AClose"]
 INLINE_ACTIONS = ["ADictTok", "AID", "AMRefill", "AMFind", "AMChar", "AMFinish", "AMEof", "AResume"]
-REALISABLE = {"Flate", "LZW", "A85", "AHx", "RL", "DCT"} | set(R.PREDICTOR_FILTERS)
+REALISABLE = {"Flate", "LZW", "A85", "AHx", "RL", "DCT"} | set(R.PREDICTOR_FILTERS) | set(R.LZW_EARLY)
 
 
 def devsets(dev):
@@ -52,12 +52,17 @@ EXPORT_CONFIGS = {
               # images whose streams exercise what small ones cannot: a table-full LZW clear, RunLength runs / literals above 128
               ("large", "GeoLargeQuick", "KindRgb", '{<<"LZW">>, <<"RL">>}', "OneImage", "EmptyDir"),
               # every filter that takes DecodeParms x every predictor class (none is above; TIFF 2, PNG 10-15), in each position
-              ("predictors", "GeoPredQuick", "KindsLarge", "PredChainsQuick", "OneImage", "EmptyDir")],
+              ("predictors", "GeoPredQuick", "KindsLarge", "PredChainsQuick", "OneImage", "EmptyDir"),
+              # every realisable export route inside an encrypted document (RC4, AESV2): the files must be the plain document's
+              ("encrypted", "GeoEnc", "KindsAll", "EncChains", "OneImage", "EmptyDir"),
+              # LZW with /EarlyChange 0, 1 and absent on an image with more than 254 codes behind the clear code
+              ("lzw-early", "GeoLZW", "KindGray", "LZWChains", "OneImage", "EmptyDir")],
 }
 EXPORT_CONFIGS["thorough"] = EXPORT_CONFIGS["quick"] + [
     ("bmp-writer-chains", "Geo3", "KindsBmp", '{<<"LZW">>, <<"A85", "Flate">>, <<"AHx">>, <<"RL">>, <<"Flate", "LZW">>, <<"FlatePNG">>}', "OneImage", "EmptyDir"),
     ("large-chains", "GeoLarge", "KindsLarge", '{<<"LZW">>, <<"RL">>, <<"FlatePNG">>, <<"Flate">>, <<"A85", "LZW">>, <<"LZW", "FlatePNG">>}', "OneImage", "EmptyDir")]
-EXPORT_CONFIGS["thorough"] = [c for c in EXPORT_CONFIGS["thorough"] if c[0] not in ("large", "predictors")] + [
+EXPORT_CONFIGS["thorough"] = [c for c in EXPORT_CONFIGS["thorough"] if c[0] not in ("large", "predictors", "lzw-early")] + [
+    ("lzw-early", "GeoLZW", "KindsLarge", "LZWChains", "OneImage", "EmptyDir"),
     ("predictors", "GeoPred", "KindsLarge", "PredChains", "OneImage", "EmptyDir"),
     ("large-predictors", "GeoLargeQuick", "KindsLarge", '{<<"LZWPNG">>, <<"LZWTIFF">>, <<"FlateTIFF">>, <<"A85", "LZWPNG">>}', "OneImage", "EmptyDir")]
 
@@ -103,10 +108,22 @@ def replay_export(ck, recs, dev, outroot, label, n):
     for fn in fs0:
         with open(os.path.join(outdir, fn), "wb") as f:
             f.write(b"already here")
-    pdf = R.export_doc(imgs, variant=n)
+    env = ideal.get("env", "plain")
+    rp["env"] = env
+    pdf = R.export_doc(imgs, variant=n, encrypt=None if env == "plain" else env)
     err, files, _ = R.run_export(pdf, outdir)
     # realiser self-check (independent path): the images arrive in the hierarchy with the intended samples
     check_arrival(pdf, imgs)
+    if env != "plain":
+        # an encrypted document exports what the plain one does, for every route (also those outside the pixel predicates)
+        plain_dir = tempfile.mkdtemp(dir=outroot)
+        err0, files0, _ = R.run_export(R.export_doc(imgs, variant=n), plain_dir)
+        shutil.rmtree(plain_dir, ignore_errors=True)
+        if (err, files) != (err0, files0):
+            diff = sorted(k for k in set(files) | set(files0) if files.get(k) != files0.get(k))
+            ck.violation("encrypted:%s" % (",".join(x.rsplit(".", 1)[-1] for x in diff) or "error"),
+                         "exported from a document encrypted with %s: %s %r differ from what the plain document exports (%s)"
+                         % (env, err or "", diff, err0 or "no error"), dict(rp))
     names = sorted(files)
     what = "%s %s %dx%d %s" % (imgs[0]["pk"], "+".join(imgs[0]["filters"]) or "unfiltered", imgs[0]["w"], imgs[0]["h"],
                                "/".join(i["name"] for i in imgs))
@@ -168,7 +185,7 @@ def sig(rec):
 
 
 def in_domain(im):
-    return im["pk"] in ("bw", "gray", "rgb") and all(f in ("Flate", "LZW", "A85", "AHx", "RL") or f in R.PREDICTOR_FILTERS or (f == "DCT" and q == len(im["filters"]) - 1)
+    return im["pk"] in ("bw", "gray", "rgb") and all(f in ("Flate", "LZW", "A85", "AHx", "RL") or f in R.PREDICTOR_FILTERS or f in R.LZW_EARLY or (f == "DCT" and q == len(im["filters"]) - 1)
                                                     for q, f in enumerate(im["filters"]))
 
 
@@ -206,13 +223,14 @@ def direction_a_export(ck, dev):
     total = 0
     effect = {}
     for (label, geo, kinds, chains, names, dirs) in EXPORT_CONFIGS[ck.tier]:
+        envs = "Encrypted" if label.startswith("encrypted") else "PlainOnly"
         mod = "RunE_" + label.replace("-", "_")
         wrapper = os.path.join(ck.tmp, mod + ".tla")
         with open(wrapper, "w") as f:
             f.write("---- MODULE %s ----\nEXTENDS MC_ImageExport\nTheChains == %s\nTheDevs == %s\n====\n" % (mod, chains, devsets(dev)))
         cfg = write_cfg(os.path.join(ck.tmp, mod + ".cfg"),
                         constants={"Geometries": "<- " + geo, "PixKinds": "<- " + kinds, "Chains": "<- TheChains", "NameSets": "<- " + names,
-                                   "PreExisting": "<- " + dirs, "DevChoices": "<- TheDevs"},
+                                   "PreExisting": "<- " + dirs, "DevChoices": "<- TheDevs", "Envs": "<- " + envs},
                         invariants=["DecisionTotal", "DecisionRight", "BMPReadsBack", "JPEGByteForByte", "DistinctNames", "SeekInArray"],
                         constraints=["EmitTerminal"])
         emit = os.path.join(ck.tmp, mod + ".ndjson")
@@ -229,7 +247,7 @@ def direction_a_export(ck, dev):
         for line in open(emit):
             rec = json.loads(line)
             n += 1
-            groups.setdefault(json.dumps([rec["imgs"], sorted(rec["fs0"])], sort_keys=True), {})[dkey(rec["dev"])] = rec
+            groups.setdefault(json.dumps([rec["imgs"], sorted(rec["fs0"]), rec["env"]], sort_keys=True), {})[dkey(rec["dev"])] = rec
         os.remove(emit)
         if n != res.emitted or n == 0:
             raise MachineryError("emitted %d terminal states but read %d" % (res.emitted, n))
@@ -263,14 +281,15 @@ def direction_a_export(ck, dev):
 def export_teeth(ck):
     found = {}
     for d, inv, chains in (("UnfilteredIndexError", "P_DecisionTotal", "{<<>>}"), ("RowsRGB", "P_BMPReadsBack", '{<<"Flate">>}'),
-                           ("ShortLastRow", "P_BMPReadsBack", '{<<"Flate">>}')):
+                           ("ShortLastRow", "P_BMPReadsBack", '{<<"Flate">>}'), ("JpegRawdata", "P_JPEGByteForByte", '{<<"DCT">>}')):
         mod = "TeethE_%s" % d
         wrapper = os.path.join(ck.tmp, mod + ".tla")
         with open(wrapper, "w") as f:
             f.write('---- MODULE %s ----\nEXTENDS MC_ImageExport\nTheChains == %s\nTheDevs == {{"%s"}}\n====\n' % (mod, chains, d))
         cfg = write_cfg(os.path.join(ck.tmp, mod + ".cfg"),
                         constants={"Geometries": "<- Geo3", "PixKinds": "<- KindsBmp", "Chains": "<- TheChains", "NameSets": "<- OneImage",
-                                   "PreExisting": "<- EmptyDir", "DevChoices": "<- TheDevs"}, invariants=[inv])
+                                   "PreExisting": "<- EmptyDir", "DevChoices": "<- TheDevs",
+                                   "Envs": "<- Encrypted" if d == "JpegRawdata" else "<- PlainOnly"}, invariants=[inv])
         res = run_tlc(wrapper, cfg, workers=2, timeout=600, lib=LIB)
         ck.add_tlc(res, "counterexample search: %s alone against %s" % (d, inv))
         if res.ok or res.violated != inv:
@@ -924,6 +943,17 @@ def replay_jbig2(ck, recs, outroot, label, notes):
         outdir = tempfile.mkdtemp(dir=outroot)
         err, files, _ = R.run_export(R.jbig2_doc(ix, gx if gsegs else None), outdir)
         shutil.rmtree(outdir, ignore_errors=True)
+        # the same image inside an encrypted document exports the same file
+        for envn in ("RC4", "AESV2"):
+            outdir = tempfile.mkdtemp(dir=outroot)
+            err2, files2, _ = R.run_export(R.jbig2_doc(ix, gx if gsegs else None, encrypt=envn), outdir)
+            shutil.rmtree(outdir, ignore_errors=True)
+            if (err2, files2) != (err, files):
+                ext(ck, "jbig2:encrypted-export-differs")
+                if "enc" not in notes:
+                    notes.add("enc")
+                    ck.note("extended coverage (JBIG2): export from a document encrypted with %s differs from the plain document's (%s / %s)"
+                            % (envn, err2, err))
         real = ("ok" if not err else {"KeyError": "concat:KeyError" if not gsegs else "write:KeyError", "error": "write:struct.error"}.get(err.split("@")[0], err),
                 None, files.get("Im1.jb2", b"") if not err else b"")
     else:
@@ -1168,7 +1198,8 @@ def replay(path):
         outdir = tempfile.mkdtemp()
         for fn in case.get("preexisting", []):
             open(os.path.join(outdir, fn), "wb").write(b"already here")
-        err, files, _ = R.run_export(R.export_doc(case["imgs"], variant=case.get("variant", 0)), outdir)
+        err, files, _ = R.run_export(R.export_doc(case["imgs"], variant=case.get("variant", 0),
+                                                 encrypt=None if case.get("env", "plain") == "plain" else case["env"]), outdir)
         print("error:", err, "files:", {k: len(v) for k, v in files.items()})
         bad = bool(err)
         for nm, blob in files.items():
